@@ -20,17 +20,15 @@ Act ==
   \/ (e.act = "DoConstruct" /\ DoConstruct(e.arg))
   \/ (e.act = "DoCrash" /\ DoCrash(e.arg))
   \/ (e.act = "DoCompile" /\ DoCompile)
-  \/ (e.act = "DoEditRoot" /\ DoEditRoot)
-  \/ (e.act = "DoEditImp" /\ DoEditImp)
-  \/ (e.act = "DoTouchRoot" /\ DoTouchRoot)
-  \/ (e.act = "DoTouchImp" /\ DoTouchImp)
+  \/ (e.act = "DoEdit" /\ DoEdit(e.arg))
+  \/ (e.act = "DoTouch" /\ DoTouch(e.arg))
 Matches == /\ e.reply = Reply(last')
            /\ e.pst = pgc'.st
            /\ (pgc'.st = "complete" => e.writer = pgc'.writer)
 \* why a construction was not transparent, read off the machine's state before the step
 Cause == IF pgc.st = "complete" /\ UseCache /\ pgc.writer # e.arg THEN "cache-written-under-other-options"
          ELSE IF pgc.st = "prefix" THEN "incomplete-cache-file"
-         ELSE IF pgc.st = "complete" /\ UseCache /\ (pgc.rver # root.ver \/ pgc.iver # imp.ver) THEN "stale-cache-accepted"
+         ELSE IF pgc.st = "complete" /\ UseCache /\ pgc.vers # Vers THEN "stale-cache-accepted"
          ELSE "no-cause-in-the-model"
 TStep ==
   /\ verdict = "ok" /\ l <= Len(Trace)
